@@ -719,7 +719,7 @@ Proof.
   intros Ha. destruct (read_objects_fixed_bs (VInt 0) [] rf rp fo po k sx m h v 1 0 VUndef ltac:(unfold int_min, int_max; lia) Ha) as (l' & so' & k' & sx' & h' & m' & B & St & P1 & P2).
   pose proof (obj_read_bs rf rp fo po v VUndef (VInt 0) k sx h m [] _ _ _ _ _ _ _ B St) as B2.
   destruct (bsE_sound _ _ _ _ B2) as (f0 & F). exists f0. intros f Hf. eexists. split; [apply F; exact Hf|]. split.
-  - intros E. destruct (P1 E) as (-> & -> & -> & ->). repeat split; reflexivity.
+  - intros E. destruct (P1 E) as (-> & -> & -> & -> & _). repeat split; reflexivity.
   - intros E. destruct (P2 E) as (-> & Hh & mm & ->). split; [reflexivity|]. split; [destruct Hh as [->| ->]; [left|right]; reflexivity|exists mm; reflexivity].
 Qed.
 
